@@ -13,7 +13,7 @@ Step     = {kw:"Given"|"When"|"Then"|"And"|"But"|"*", uid, o:outcome|"<col>", cl
 """
 from __future__ import annotations
 
-OUTCOMES = ["pass", "fail", "raise", "pending", "undefined", "skip", "interrupt", "convert"]
+OUTCOMES = ["pass", "fail", "raise", "pending", "undefined", "skip", "interrupt", "convert", "raise_timeout"]
 # further outcomes used by individual checks: "abort" (step calls context.abort()),
 # "convert_key" (type converter raises KeyError instead of ValueError)
 PHRASE = {
@@ -25,6 +25,8 @@ PHRASE = {
     # definition and no @when definition; typed steps share their uid (T0, T1), so that one text
     # occurs with several step types in one run
     "typed": "depends",
+    # an exception that is no assertion error whatever its type (TimeoutError: also what asyncio raises)
+    "raise_timeout": "times out",
 }
 TYPED_RESULT = {"given": "pass", "when": "undefined", "then": "fail"}
 STEP_TYPES = ("given", "when", "then")
@@ -42,7 +44,8 @@ def step_text(step, row=None):
         if step.get("tail") is not None:
             text += u" with " + step["tail"]
         if step.get("a"):
-            text = u"async " + text
+            # a == 2: the second documented decorator style, @async_run_until_complete(timeout=...)
+            text = (u"asynct " if step["a"] == 2 else u"async ") + text
     if row:
         for col, val in row.items():
             text = text.replace(u"<%s>" % col, val)
